@@ -158,6 +158,16 @@ func driveSec1(c *ctx) {
 					recmp = hx(ret.CompressedBytes())
 				}
 				c.E("s1.Decode", "fn", d.name, "in", hx(b), "ok", err == nil, "retnil", ret == nil, "pre", pre, "post", post, "recmp", recmp)
+				if err != nil && variant == 1 { // a rejected input is offered again at once (fresh zero-value receiver): same answer
+					rcv2 := new(secp256k1.Point)
+					var (
+						ret2 *secp256k1.Point
+						err2 error
+					)
+					if pn2 := catch(func() { ret2, err2 = d.f(rcv2, append([]byte{}, b...)) }); !pn2 && err2 == nil {
+						c.E("s1.Decode", "fn", d.name, "in", hx(b), "ok", true, "retnil", ret2 == nil, "pre", "uninit", "post", state(rcv2), "recmp", hx(ret2.CompressedBytes()))
+					}
+				}
 			}
 		}
 	}
